@@ -27,6 +27,7 @@ MODULES = {
         },
     },
     "adsr": {"trace_spec": "Trace_Adsr", "trace_cfg": "Trace_Adsr.cfg", "graphs": {}},
+    "quant": {"trace_spec": "Trace_Quantizer", "trace_cfg": "Trace_Quantizer.cfg", "graphs": {}},
     "lfo": {"trace_spec": "Trace_Lfo", "trace_cfg": "Trace_Lfo.cfg", "graphs": {}},
 }
 
@@ -89,6 +90,17 @@ PROPS.update({
             "rule": "distinct (phase, table cell) pairs (of 3 x 1024 + 2) in which a logged tick landed"},
     "C02": {"module": "adsr", "mc": _ADSR_MC, "traces": _ADSR_TR},
     "C03": {"module": "adsr", "mc": _ADSR_MC, "traces": _ADSR_TR},
+})
+
+_Q_MC = [("quant", "MC_Quantizer", "MC_Quantizer.cfg", QT), ("quant-big", "MC_Quantizer", "MC_Quantizer_big.cfg", T)]
+_Q_SWEEP = ("quant", "sweep", QT, {"thorough": 16})
+PROPS.update({
+    "C07": {"module": "quant", "mc": _Q_MC, "traces": [("quant", "hyst", QT), _Q_SWEEP]},
+    "C08": {"module": "quant", "mc": _Q_MC, "traces": [_Q_SWEEP, ("quant", "hyst", QT)],
+            "rule": "distinct scales swept on fresh quantizers (run-length compressed input->note map); thorough: all "
+                    "4095 scales x all 10,000,001 microvolt inputs"},
+    "C09": {"module": "quant", "mc": _Q_MC, "traces": [("quant", "hyst", QT)]},
+    "C19": {"module": "quant", "mc": _Q_MC, "traces": [("quant", "hyst", QT), _Q_SWEEP]},
 })
 
 HOOK_COMMITS = ["36838b7"]
